@@ -60,7 +60,7 @@ RULE = ('names: class name x 0-9 parameters drawn from ints, negative ints, bool
         'identifier pool), 9 stdlib/example designs, 12 labelled aliasing probe streams; a case = (design, backend); non-trivial = '
         'the design has >= 2 instances sharing a module name or >= 3 modules; distinct = distinct source text')
 
-REPO = '/repo'
+REPO = os.environ.get('PV_REPO', '/repo')     # tools/try_seed.sh points the checks at a scratch worktree
 # which name function of Model/Names.lean the real get_component_unique_name is compared with:
 # 3 = uniqueName (the code as it is), 4 = uniqueNameR (after the proposed identifier-shape repair)
 UNIQ = 4
